@@ -10,6 +10,7 @@ SPEC = {'id': 'C06',
               ('Snowflake.Props.C06', 'Snowflake.NameMatcher.C06.superset_complete'),
               ('Snowflake.Props.C06', 'Snowflake.NameMatcher.C06.superset_iff'),
               ('Snowflake.Props.C06', 'Snowflake.NameMatcher.C06.broker_check_sound'),
+              ('Snowflake.Props.C06', 'Snowflake.NameMatcher.C06.broker_check_iff'),
               ('Snowflake.Props.C06', 'Snowflake.NameMatcher.C06.broker_rejects_iff'),
               ('Snowflake.Props.C06', 'Snowflake.NameMatcher.C06.proxy_accepts_only_member_and_wss'),
               ('Snowflake.Props.C06', 'Snowflake.NameMatcher.C06.empty_url_not_rejected'),
